@@ -75,7 +75,7 @@ pub fn inputs(tier: Tier) -> Inputs {
         }
         nb.extend(single_edit_neighbours(d, &MARKERS));
     }
-    let sequences = dedup_docs(token_sequences(&tokens(), tier.pick(2, 3)));
+    let sequences = dedup_docs(token_sequences(&tokens(), tier.pick(3, 3)));
     Inputs { corpus, neighbours: dedup_docs(nb), sequences }
 }
 
